@@ -621,10 +621,10 @@ func TestC05(t *testing.T) {
 		stages = append(stages, Stage[c05Case]{Name: "family-pairs", Enum: c05EnumQuickPairs, Run: c05RunPair})
 	}
 	stages = append(stages,
-		Stage[c05Case]{Name: "pairs", Gen: c05GenPair, Run: c05RunPair, N: pick(3000, 60000)},
-		Stage[c05Case]{Name: "triples", Gen: c05GenTriple, Run: c05RunPair, N: pick(3000, 100000)},
-		Stage[c05Case]{Name: "collections", Gen: c05GenColl, Run: c05RunPair, N: pick(3000, 60000)},
-		Stage[c05Case]{Name: "near", Gen: c05GenNear, Run: c05RunPair, N: pick(6000, 150000)},
+		Stage[c05Case]{Name: "pairs", Gen: c05GenPair, Run: c05RunPair, N: pick(9000, 60000)},
+		Stage[c05Case]{Name: "triples", Gen: c05GenTriple, Run: c05RunPair, N: pick(9000, 100000)},
+		Stage[c05Case]{Name: "collections", Gen: c05GenColl, Run: c05RunPair, N: pick(9000, 60000)},
+		Stage[c05Case]{Name: "near", Gen: c05GenNear, Run: c05RunPair, N: pick(18000, 150000)},
 	)
 	runProperty(t, r, stages...)
 }
